@@ -147,6 +147,7 @@ def r6_old_is_installed(chk, fx):
     # or mis-parsed) and every statement the agent wrote — a range the reader loses is a range the next update never deletes
     c01.r4_installed_reader(_Rename(chk, "C01/R4", "C02/R6:installed"), fx)
     c01.r5_installed_statement(_Rename(chk, "C01/R5", "C02/R6:statement"), fx)
+    c01.r6_term_name_is_family(_Rename(chk, "C01/R6", "C02/R6:term"), fx)
 
 
 def _name_chain(t):
